@@ -19,6 +19,7 @@ Definition DEC : Amount := {|
   a_div := dec_div;
   a_neg := dec_neg;
   a_abs := dec_abs;
+  a_sign_neg := fun d => (d_coeff d <? 0)%Z;
   a_eqb := dec_eqb;
   a_cmp := fun x y => Some (dec_cmp x y);
   a_of_lit := dec_of_lit;
